@@ -29,16 +29,16 @@ Definition regex_sites : list re_site := [
   (* interp/interp.go:862 *)
   mkReSite "interp" "interp.go" "setSpecial" "Compile" "compiler.AddRegexFlags(p.fieldSep)"
     (TLocal "re") true [] true;
-  (* interp/interp.go:882 *)
+  (* interp/interp.go:888 *)
   mkReSite "interp" "interp.go" "setSpecial" "MustCompile" "sep"
     (TField "p.recordSepRegex") true [] true;
-  (* interp/interp.go:887 *)
+  (* interp/interp.go:893 *)
   mkReSite "interp" "interp.go" "setSpecial" "MustCompile" "sep"
     (TField "p.recordSepRegex") true [] true;
-  (* interp/interp.go:890 *)
+  (* interp/interp.go:896 *)
   mkReSite "interp" "interp.go" "setSpecial" "Compile" "compiler.AddRegexFlags(p.recordSep)"
     (TLocal "re") true [] true;
-  (* interp/interp.go:1051 *)
+  (* interp/interp.go:1057 *)
   mkReSite "interp" "interp.go" "compileRegex" "Compile" "compiler.AddRegexFlags(regex)"
     (TLocal "re") true [] true;
   (* internal/compiler/compiler.go:1107 *)
